@@ -226,9 +226,24 @@ Definition llgr_handler (h : hstate) (f : fam) : hstate :=
   let '(g', outs) := gr_step (h_gr h) (GLlgrTimerExpired f) in
   upd_h h g' (h_rtimer h) (h_ltimers h) (rib_drop_llgr_stale (h_rib h) (delete_llgr_fams outs)).
 
+(* the negotiated GR / LLGR sets restricted to the families of the session *)
+Definition norm_gr (fams : list fam) (gr : option (list fam * N * bool)) : option (list fam * N * bool) :=
+  match gr with
+  | Some (l, rt, nb) => match filter (fun f => mem f fams) l with [] => None | l' => Some (l', rt, nb) end
+  | None => None
+  end.
+Definition norm_llgr (fams : list fam) (ll : option (list (fam * N))) : option (list (fam * N)) :=
+  match ll with
+  | Some l => match filter (fun e => mem (fst e) fams) l with [] => None | l' => Some l' end
+  | None => None
+  end.
+
 Definition h_step (h : hstate) (e : hevent) : hstate :=
   match e with
-  | HUp fams gr llgr =>
+  | HUp fams gr0 llgr0 =>
+      (* apply_outputs (fix C10-7): only address families of the session are negotiated *)
+      let gr := norm_gr fams gr0 in
+      let llgr := norm_llgr fams llgr0 in
       match h_sess h with
       | Some _ => h
       | None =>
